@@ -10,6 +10,7 @@ import (
 	"bytes"
 	"fmt"
 	"net"
+	"runtime"
 	"sort"
 	"strings"
 	"testing"
@@ -846,7 +847,22 @@ func (sc *swimCheck) runPath(t *testing.T, path []cev, fn func(w *world, last *s
 // shard, so sharding is done over independent configurations by the callers;
 // one bfs call is single-process.
 func (sc *swimCheck) bfs(t *testing.T, rep *Report, cfgName string) {
-	type st struct{ path []cev }
+	type st struct {
+		path  []cev
+		alpha []cev // interned: states with the same enabled events share one slice
+	}
+	// the alphabet of a state has hundreds of events but depends on little of the state: storing one
+	// copy per frontier state exhausted memory at thorough bounds
+	interned := map[string][]cev{}
+	intern := func(a []cev) []cev {
+		k := fmt.Sprint(a)
+		if x, ok := interned[k]; ok {
+			return x
+		}
+		interned[k] = a
+		return a
+	}
+	var ms runtime.MemStats
 	seen := map[string]bool{}
 	var frontier []st
 	// initial state
@@ -858,9 +874,9 @@ func (sc *swimCheck) bfs(t *testing.T, rep *Report, cfgName string) {
 		return true
 	})
 	seen[initKey] = true
-	frontier = []st{{nil}}
-	alphaOf := map[string][]cev{fmt.Sprint(pathStr(nil)): initAlpha}
+	frontier = []st{{nil, intern(initAlpha)}}
 	depth := 0
+	stop := false
 	for len(frontier) > 0 {
 		depth++
 		if sc.maxDept > 0 && depth > sc.maxDept {
@@ -870,8 +886,17 @@ func (sc *swimCheck) bfs(t *testing.T, rep *Report, cfgName string) {
 		}
 		var next []st
 		for _, s := range frontier {
-			alpha := alphaOf[fmt.Sprint(pathStr(s.path))]
-			delete(alphaOf, fmt.Sprint(pathStr(s.path)))
+			alpha := s.alpha
+			if rep.Transitions&8191 == 0 {
+				runtime.ReadMemStats(&ms)
+				if ms.HeapAlloc > 6<<30 {
+					stop = true
+					rep.Incomplete(fmt.Sprintf("%s/%s: BFS stopped at %d states (depth %d): memory cap of 6 GiB per worker reached", sc.name, cfgName, len(seen), depth))
+				}
+			}
+			if stop {
+				break
+			}
 			for _, e := range alpha {
 				path := append(append([]cev(nil), s.path...), e)
 				journal("%s cfg=%s path=%v", sc.name, cfgName, pathStr(path))
@@ -919,8 +944,7 @@ func (sc *swimCheck) bfs(t *testing.T, rep *Report, cfgName string) {
 				if !seen[key] {
 					seen[key] = true
 					if expand {
-						next = append(next, st{path})
-						alphaOf[fmt.Sprint(pathStr(path))] = nextAlpha
+						next = append(next, st{path, intern(nextAlpha)})
 					}
 					if len(seen)%97 == 3 {
 						rep.Sample(map[string]any{"cfg": cfgName, "path": pathStr(path), "state": key})
@@ -932,7 +956,7 @@ func (sc *swimCheck) bfs(t *testing.T, rep *Report, cfgName string) {
 			}
 		}
 		frontier = next
-		if rep.OverBudget() {
+		if rep.OverBudget() || stop {
 			break
 		}
 	}
